@@ -19,7 +19,7 @@ func checkC05(c *Ctx) {
 	if !c.quick() {
 		mcPairs = append(mcPairs, pair{ModelKind{"low", 2}, ModelKind{"low", 4}}, pair{ModelKind{"high", 2}, ModelKind{"high", 4}},
 			pair{ModelKind{"exact", 0}, ModelKind{"high", 2}}, pair{ModelKind{"low", 1}, ModelKind{"high", 1}})
-		keys, maxTotal = "MCKeys", 6
+		keys, maxTotal = "MCKeys", 5
 	}
 	for _, p := range mcPairs {
 		c.runStoreMC([]ModelKind{p.a, p.b}, "OpsCore", keys, maxTotal, fmt.Sprintf("%s%d x %s%d", p.a.Kind, p.a.N, p.b.Kind, p.b.N))
